@@ -62,7 +62,7 @@ def check(run):
             good = 0
             for (bb, sp) in somes:
                 for a in G.guard_atoms(b, bb, prog):
-                    if a[0] in ("eq", "lt") and any(x == walking or K.mentions_name(x, "index") for x in a[1]) and not any(K.mentions(x, lambda t: t[0] == "bin" and t[1] in ("Rem", "BitAnd")) for x in a[1]):
+                    if a[0] in ("eq", "lt") and any(x == walking or K.mentions_arg(b, x, 2) for x in a[1]) and not any(K.mentions(x, lambda t: t[0] == "bin" and t[1] in ("Rem", "BitAnd")) for x in a[1]):
                         good += 1
                         break
             ok_a = bool(somes) and good == len(somes)
@@ -84,7 +84,7 @@ def check(run):
                 terms, table = tt
                 for i, t in enumerate(terms):
                     tt_terms = t[1] if isinstance(t, tuple) and t and t[0] in ("eq", "lt") else (t,)
-                    if any(K.mentions_name(x, "index") for x in tt_terms if isinstance(x, tuple)) and not any(
+                    if any(K.mentions_arg(cb, x, 2) for x in tt_terms if isinstance(x, tuple)) and not any(
                             any(K.mentions_call(x, w.rsplit("::", 1)[-1]) for w in wnames) for x in tt_terms if isinstance(x, tuple)):
                         # verdict depends on it?
                         for asg, v in table.items():
@@ -113,7 +113,7 @@ def check(run):
         if tt:
             terms, table = tt
             for i, t in enumerate(terms):
-                if isinstance(t, tuple) and t[0] == "lt" and any("EMPTY_ROOTS" in mir.show(x) for x in t[1]) and any(K.mentions_name(x, "proof") for x in t[1]):
+                if isinstance(t, tuple) and t[0] == "lt" and any("EMPTY_ROOTS" in mir.show(x) for x in t[1]) and any(K.mentions_arg(b, x, 4) for x in t[1]):
                     # lt(len(EMPTY), len(proof)) true => verdict false
                     ok = all(not v for asg, v in table.items() if asg[i])
         o.check(ok, "check_hash_proof|length-bound", "verdict is false whenever proof.len() > EMPTY_ROOTS.len()", b.span)
@@ -126,7 +126,7 @@ def check(run):
         for bb in idx:
             g = None
             for a in G.guard_atoms(b, bb, prog):
-                if a[0] == "lt" and a[2] is False and any("EMPTY_ROOTS" in mir.show(x) for x in a[1]) and any(K.mentions_name(x, "proof") for x in a[1]):
+                if a[0] == "lt" and a[2] is False and any("EMPTY_ROOTS" in mir.show(x) for x in a[1]) and any(K.mentions_arg(b, x, 3) for x in a[1]):
                     g = a
             o.check(g is not None, "derive_hash_root_last|bounds|bb", "indexing is dominated by !(EMPTY_ROOTS.len() < proof.len())", b.blocks[bb]["term"].get("sp", ""), {"guards": K.show_atoms(prog, b, bb)})
 
@@ -147,8 +147,16 @@ def check(run):
         ev = [c for c in hp if even_t and b.can_reach(even_t[0], c.bb) and not (odd_t and b.dominates(odd_t[0], c.bb))]
         od = [c for c in hp if odd_t and b.dominates(odd_t[0], c.bb)]
         ev = [c for c in ev if c not in od]
+        # the accumulator: the local that receives the hash_pair results
+        node_locals = set()
+        for c in hp:
+            node_locals.add(c.dst["l"])
+            for (bb2, i2, dst2, rv2, sp2) in b.assignments():
+                if rv2["k"] == "use" and (rv2["a"].get("m") or rv2["a"].get("c") or {}).get("l") == c.dst["l"] and not dst2["p"]:
+                    node_locals.add(dst2["l"])
+
         def is_node(t):
-            return K.mentions_name(t, "node")
+            return K.mentions(t, lambda x: x[0] == "local" and x[1] in node_locals)
         ok_e = bool(ev) and all(is_node(b.operand_term(c.args[0])) and not is_node(b.operand_term(c.args[1])) for c in ev)
         ok_o = bool(od) and all(is_node(b.operand_term(c.args[1])) and not is_node(b.operand_term(c.args[0])) for c in od)
         o.check(ok_e, key + "|even-left", "even bit: hash_pair(node, sibling)", b.span, {"calls": [mir.show(b.call_term(c.bb, c.raw))[:120] for c in ev]})
